@@ -133,7 +133,7 @@ func scriptedOutcome(res []callRes, idOf func(string) (string, bool)) map[string
 func emitScripted(c *hk.Ctx, kind string, p plan, done map[string]string, tag string) {
 	var evs []any
 	for i := 0; i < p.k; i++ {
-		evs = append(evs, map[string]any{"e": "issue"})
+		evs = append(evs, map[string]any{"e": "issue"}, map[string]any{"e": "register", "c": p.start + 1 + int64(i)})
 	}
 	evs = append(evs, p.modelEv...)
 	isEarly := map[int64]bool{}
